@@ -6,9 +6,18 @@ class DeferredCycle(Exception):
     pass
 
 
+# A value that evaluates to itself ('a = a'), or to an ever growing expression of itself
+# ('a = a + 1'), never settles. Chains of deferred values that long do not occur otherwise.
+MAX_WAIT_CHAIN_LENGTH = 10000
+
+
 def wait(deferred):
+    chain_length = 0
     while isinstance(deferred, BaseDeferred):
         deferred = deferred.wait()
+        chain_length += 1
+        if chain_length > MAX_WAIT_CHAIN_LENGTH:
+            raise DeferredCycle()
     return deferred
 
 
